@@ -27,7 +27,8 @@ type Op struct {
 	Ref  hx.Ref `json:"ref"`
 	Subj string `json:"subj,omitempty"`
 	Body string `json:"body,omitempty"`
-	Ask  int    `json:"ask"` // how the name is spelled in the request: 0 mailbox name, 1 original address, 2 re-cased
+	Ask  int    `json:"ask"`            // how the name is spelled in the request: 0 mailbox name, 1 original address, 2 re-cased
+	Many int    `json:"many,omitempty"` // deliver: this many messages in a row
 }
 
 type Case struct {
@@ -44,7 +45,13 @@ var addrs = []string{"user@a.test", "a.b@a.test", "o'brien@a.test", "50%off@a.te
 var opGen = rapid.Custom(func(t *rapid.T) Op {
 	op := Op{Addr: rapid.IntRange(0, len(addrs)-1).Draw(t, "addr"), Ask: rapid.SampledFrom([]int{0, 0, 1, 2}).Draw(t, "ask")}
 	op.Ref = hx.Ref{Kind: rapid.SampledFrom([]string{"issued", "issued", "issued", "issued", "never", "latest", "weird"}).Draw(t, "refkind"), N: rapid.IntRange(0, 1000).Draw(t, "refn")}
-	switch rapid.IntRange(0, 9).Draw(t, "k") {
+	switch rapid.IntRange(0, 10).Draw(t, "k") {
+	case 10:
+		// a dozen deliveries to one mailbox at once: ids of different length, long listings
+		op.K = "deliver"
+		op.Many = rapid.IntRange(9, 13).Draw(t, "many")
+		op.Subj = "bulk"
+		op.Body = "b\r\n"
 	case 0, 1, 2:
 		op.K = "deliver"
 		op.Subj = rapid.SampledFrom([]string{"hello", "second", "x y z"}).Draw(t, "subj")
@@ -228,23 +235,33 @@ func run(c Case) *hx.Outcome {
 		eid := url.PathEscape(id)
 		switch op.K {
 		case "deliver":
-			msg := &hx.MailMsg{From: &hx.Addr{Name: "Sender", Address: "from@a.test"}, To: []hx.Addr{{Address: addr}}, Subject: op.Subj, Body: []byte(op.Body)}
-			origin, _ := w.Policy.ParseOrigin("env@a.test")
-			if err := w.Manager.Deliver(origin, []*policy.Recipient{rc}, "Received: from harness ([127.0.0.1]) by inbucket.test\r\n", msg.Bytes()); err != nil {
-				fail("harness", "%s: Deliver: %v", where, err)
-				return o
+			n := op.Many
+			if n == 0 {
+				n = 1
 			}
-			ms, _ := w.Store.GetMessages(box)
-			if len(ms) != len(model[box])+1 {
-				fail("harness", "%s: delivery did not add one message", where)
-				return o
+			for k := 0; k < n; k++ {
+				subj := op.Subj
+				if n > 1 {
+					subj = fmt.Sprintf("%s %d", op.Subj, k)
+				}
+				msg := &hx.MailMsg{From: &hx.Addr{Name: "Sender", Address: "from@a.test"}, To: []hx.Addr{{Address: addr}}, Subject: subj, Body: []byte(op.Body)}
+				origin, _ := w.Policy.ParseOrigin("env@a.test")
+				if err := w.Manager.Deliver(origin, []*policy.Recipient{rc}, "Received: from harness ([127.0.0.1]) by inbucket.test\r\n", msg.Bytes()); err != nil {
+					fail("harness", "%s: Deliver: %v", where, err)
+					return o
+				}
+				ms, _ := w.Store.GetMessages(box)
+				if len(ms) != len(model[box])+1 {
+					fail("harness", "%s: delivery did not add one message", where)
+					return o
+				}
+				sm := ms[len(ms)-1]
+				src, _ := hx.ReadSource(sm)
+				from, to, _ := msg.Expect("env@a.test", []string{addr})
+				model[box] = append(model[box], &item{id: sm.ID(), subject: subj, size: sm.Size(), src: src,
+					from: stringutil.StringAddress(from), to: stringutil.StringAddressList(to)})
+				issued[box] = append(issued[box], sm.ID())
 			}
-			sm := ms[len(ms)-1]
-			src, _ := hx.ReadSource(sm)
-			from, to, _ := msg.Expect("env@a.test", []string{addr})
-			model[box] = append(model[box], &item{id: sm.ID(), subject: op.Subj, size: sm.Size(), src: src,
-				from: stringutil.StringAddress(from), to: stringutil.StringAddressList(to)})
-			issued[box] = append(issued[box], sm.ID())
 			delivered = true
 		case "http":
 			idx := findIdx(box, id)
